@@ -283,6 +283,30 @@ void explore_poly_carry(Ctx &ctx) {
                             ctx.cls("poly1305_crafted_target_base" + std::to_string(base));
                         }
                     }
+    // limb saturation after the 2^130 wrap (see above): one saturated carry chain per limb width, chain length and k
+    for (int w : { 26, 44 })
+        for (int j = 1; j <= (w == 26 ? 3 : 1); j++)
+            for (int k = 1; k <= 6; k++)
+                for (int oddbit = 0; oddbit < 2; oddbit++)
+                    for (size_t si = 0; si < ss.size(); si++) {
+                        Bytes srand = r.bytes(16);
+                        if (!ctx.mine(idx++)) continue;
+                        ref::N384 V = ref::N384::pow2((unsigned) w).sub(ref::N384::small((uint32_t) k));
+                        for (int l = 1; l <= j; l++) V = V.add(ref::N384::pow2((unsigned) (w * (l + 1))).sub(ref::N384::pow2((unsigned) (w * l))));
+                        if (oddbit) V = V.add(ref::N384::pow2((unsigned) (w * (j + 1))));
+                        if (V.cmp(ref::N384::pow2(128)) >= 0) continue;
+                        Case c; c.alg = POLY1305; c.mseed = idx; c.mcls = 0;
+                        c.msg_override = le16(V); c.msg_override.resize(64, 0);
+                        c.mlen = 64; c.key = rs[0]; Bytes s = ss[si].empty() ? srand : ss[si]; c.key.insert(c.key.end(), s.begin(), s.end()); c.outlen = 0;
+                        for (size_t mi : { (size_t) 0, masks.size() - 1 }) {
+                            c.mask = masks[mi];
+                            c.streaming = false; c.chunks.clear();
+                            exec_case(ctx, c, run, mix64(case_key(c), mix64(mix64(w, j), mix64(k, oddbit * 4 + (int) si))), true);
+                            c.streaming = true; c.chunks = { 16, 16, 16, 16 };
+                            exec_case(ctx, c, run, mix64(case_key(c), mix64(mix64(w, j), mix64(k, 100 + oddbit * 4 + (int) si))), true);
+                            ctx.cls("poly1305_limb_saturation_w" + std::to_string(w));
+                        }
+                    }
     // all-ff / all-00 blocks with extreme keys, every final-block length
     for (size_t nblk = 0; nblk <= (ctx.thorough() ? 40 : 20); nblk++)
         for (size_t tail = 0; tail < 32; tail++)
